@@ -24,14 +24,15 @@ PROBES = ['state_compressed_gt57', 'cookie_b64_gt76', 'token_compressed_gt57',
           'astral_id', 'int_id', 'same_id_in_two_subtrees', 'stale_undefined',
           'assume_children_leaf_expanded', 'codec_case', 'depth_ge_4',
           'two_expanded_siblings', 'state_json_gt32k',
-          'leaf_without_branches_method']
+          'leaf_without_branches_method', 'foreign_cookie']
 RULE = ('seeded trees (1..40 nodes, about one in a hundred with 400-600 nodes '
         'and 30-character non-ASCII ids; sometimes ids that collide when joined with "/"; depth <= 6, ids of 1..30 chars over '
         'ASCII / Latin-1 / BMP / astral alphabets or ints, ids unique among '
         'siblings only; in some trees part of the leaves are plain content '
         'objects without any branches method) x tag options x histories of 1..40 browser actions '
         '(click i-th link, expand_all, collapse_all, reload; faults: resend, '
-        'stale link from an older page, lost cookie), plus direct codec round '
+        'stale link from an older page, lost cookie, state cookie written by '
+        'another tree page), plus direct codec round '
         'trips of synthetic states up to several kB.  Non-trivial: a history '
         'with a collapse of a node that had an expanded descendant, or a '
         'written state whose compressed form exceeded 57 bytes, or a fired '
@@ -241,6 +242,8 @@ def gen_case(seed, tier):
                 op['stale'] = r.randint(1, 4)
             elif y < 0.30:
                 op['loss'] = True
+            elif y < 0.36:
+                op['foreign'] = True
         hist.append(op)
     if huge:
         hist = [{'op': 'expand_all'}, {'op': 'reload'}] + hist[:3]
@@ -566,6 +569,17 @@ def run_case(case):
             faults['net.cookie_loss'] = faults.get('net.cookie_loss', 0) + 1
             probe('cookie_loss')
             nontrivial.append(1)
+        if op.get('foreign') and not lost:
+            # the jar holds the state cookie another tree page of the same
+            # site wrote (the cookie name is shared): for this tree that is
+            # as good as no cookie
+            carried = TreeTag.encode_seq(
+                [['another tree %s' % rootid, [['fa', [['fb']]], ['fc']]]])
+            carried_E = set()
+            faults['net.foreign_cookie'] = faults.get(
+                'net.foreign_cookie', 0) + 1
+            probe('foreign_cookie')
+            nontrivial.append(1)
         kind = op['op']
         if kind == 'dup':
             if last_req is None:
@@ -677,7 +691,7 @@ def shrink(case):
         del c['history'][i]
         yield c
     for i, op in enumerate(h):
-        for k in ('stale', 'loss'):
+        for k in ('stale', 'loss', 'foreign'):
             if k in op:
                 c = copy.deepcopy(case)
                 del c['history'][i][k]
